@@ -7,7 +7,8 @@
    8, 9, 35, end with 10, contain every set top-level tag exactly once (followed by exactly its group members) with
    its latest value and no other field, header before body before trailer, 9 = byte count between the 9 and 10 fields,
    10 = byte sum mod 256 in three digits.  c10_proper = tags used in their sections, SOH-free byte values, groups
-   with body-tag members not set on framing tags, 8 and 35 set. *)
+   with body-tag members not set on framing tags, 8 and 35 set (c10_proper_strict, which additionally excludes a scalar set
+   over a live repeating group, is only a class label for the correspondence driver). *)
 From Coq Require Import ZArith List Bool Sorting.Permutation Sorting.Sorted.
 From QF Require Import Base.Res Base.Bytes Codec.TagValue Codec.FieldMap Codec.FieldMapProofs Codec.Build Codec.BuildProofs Codec.Scan
   Codec.Parse Codec.ParseProofs.
@@ -38,19 +39,19 @@ Proof. exact normal_order_strict_total. Qed.
 Theorem c10_trailer_order_strict_total : strict_total_on any_tag trailer_field_ordering.
 Proof. exact trailer_order_strict_total. Qed.
 
-(* FULL STATEMENT (false of the faithful model, see c10_wellformed_refuted):
-     forall ops, c10_proper ops = true -> c10_wf (snd (msg_build (msg_run_ops ops))) (c10_abs_run ops) = 0.
-   Proved with the one excluded class visible in the hypothesis: c10_proper_strict = c10_proper and no scalar set on a
-   tag that currently holds repeating-group members. *)
-Theorem c10_wellformed_partial : forall ops, c10_proper_strict ops = true ->
+(* The built bytes are well-formed for EVERY proper operation program (nothing else is excluded). *)
+Theorem c10_wellformed : forall ops, c10_proper ops = true ->
   c10_wf (snd (msg_build (msg_run_ops ops))) (c10_abs_run ops) = 0.
 Proof. exact run_ops_wellformed. Qed.
 
-(* the excluded class violates the property: SetGroup(453 with one entry) then SetInt(453, 0) writes
-   453=0 followed by the stale members 448=A 447=B *)
-Theorem c10_wellformed_refuted : exists ops, c10_proper ops = true /\
-  c10_wf (snd (msg_build (msg_run_ops ops))) (c10_abs_run ops) <> 0.
-Proof. exact run_ops_wellformed_refuted. Qed.
+(* regression witness of the repaired defect (getOrCreate kept the stale members of a repeating group under a scalar
+   set): SetGroup(453 with one entry) then SetInt(453, 0) is a proper program and now builds 8,9,35,453=0,10 *)
+Example c10_set_over_group_regression : c10_proper c10_set_over_group_program = true /\
+  c10_proper_strict c10_set_over_group_program = false /\
+  c10_wf (snd (msg_build (msg_run_ops c10_set_over_group_program))) (c10_abs_run c10_set_over_group_program) = 0 /\
+  snd (msg_build (msg_run_ops c10_set_over_group_program)) =
+    ser [(8, [70; 73; 88; 46; 52; 46; 50]); (9, [49; 49]); (35, [68]); (453, [48]); (10, [50; 51; 54])].
+Proof. exact c10_set_over_group_wellformed. Qed.
 
 (* a copied message serialises identically to its source (whatever the target held before) *)
 Theorem c10_copy_same_bytes : forall m to, snd (msg_build (msg_copy_into m to)) = snd (msg_build m).
@@ -60,10 +61,10 @@ Proof. exact copy_builds_same_bytes. Qed.
    the independent scanner reads back, ParseMessage accepts them, the parsed message's field array is exactly fs, its raw
    bytes are the built bytes and every field is found in the section of its tag (last occurrence wins - without a
    dictionary repeating-group members are plain body fields).
-   Excluded, visibly: the scalar-over-group class (as above); programs that set XMLDataLen (212) by hand - the field
-   following 212=n is read as n raw bytes, so 212 must agree with the next field, which the API does not enforce;
-   messages of 2^63 bytes or more (the model's lengths are unbounded integers). *)
-Theorem c10_parse_back_partial : forall ops, c10_proper_strict ops = true -> c10_uses_xml_data_len ops = false ->
+   FULL STATEMENT: forall ops, c10_proper ops = true -> (the conclusion below).  Excluded, visibly: programs that set
+   XMLDataLen (212) by hand - the field following 212=n is read as n raw bytes, so 212 must agree with the next field,
+   which the API does not enforce; messages of 2^63 bytes or more (the model's lengths are unbounded integers). *)
+Theorem c10_parse_back_partial : forall ops, c10_proper ops = true -> c10_uses_xml_data_len ops = false ->
   len (snd (msg_build (msg_run_ops ops))) < two63 ->
   exists fs p, snd (msg_build (msg_run_ops ops)) = ser fs /\ scan (ser fs) = Some fs /\
     do_parsing (ser fs) None None = Ok p /\ m_raw p = Some (ser fs) /\ m_fields p = map init_of fs /\
@@ -71,5 +72,5 @@ Theorem c10_parse_back_partial : forall ops, c10_proper_strict ops = true -> c10
 Proof. exact run_ops_parse_back. Qed.
 
 (* non-vacuity: a program with overwrite, remove->set, clear->set, a two-entry group, a copy, an intermediate build *)
-Example c10_hypothesis_satisfiable : c10_proper_strict c10_example_program = true.
+Example c10_hypothesis_satisfiable : c10_proper c10_example_program = true.
 Proof. exact c10_example_proper. Qed.
